@@ -17,8 +17,8 @@ pub static DEF: PropDef = PropDef {
     level: "exploration",
     rule: "each case: one input (valid / truncated / mutated without oversized declarations; occasionally 64 KiB-1, 64 KiB, 64 KiB+1 and ~200 KiB long to cross the transfer buffer) x buffered-master subset x async delivery schedules driven on a single-threaded executor: everything at once, two halves, k bytes per read, 1 byte per read, random partitions, ALL 2^(n-1) partitions for inputs of <= 8 (quick) / <= 10 (thorough) bytes, each with Poll::Pending (self-waking) every k-th poll. TagIteratorAsync::next() is awaited until None (then 3 more times: must stay None); item values and last_emitted_tag_offset() after every item are compared with the blocking TagIterator over the same bytes, the final error too; the Stream adapter (into_stream) is collected and compared as well. A schedule is classified 'starved' by replaying it against the real blocking iterator through a gated source (one delivery, then one next(), exactly like the adapter): starved iff the iterator sees end-of-file (Ok(0)) while data is still outstanding; divergences on starved schedules carry the single signature C20/starved-read (known limitation of the adapter), divergences on non-starved schedules get specific signatures. distinct = (schedule class, whether a read boundary splits a tag, pending pattern, buffered?); non-trivial iff the schedule has >= 2 reads.",
     assumptions: &["inputs whose limited pre-screen (16 MiB) reports InvalidTagSize are skipped: the adapter cannot change the 4 GB default limit and a legitimate GB allocation per worker would exhaust the box", "zero-length reads in the middle of the data are not injected: Ok(0) means end of stream for an AsyncRead"],
-    cases_quick: 4000,
-    cases_thorough: 150_000,
+    cases_quick: 60_000,
+    cases_thorough: 800_000,
     floors: &[("schedules_compared", 20_000), ("non_starved_schedules", 8_000), ("stream_adapter_runs", 3_000), ("distinct_nontrivial", 60), ("exhaustive_partition_inputs", 20), ("inputs_over_64k", 3)],
     exhaustive_note: Some("all 2^(n-1) partitions of inputs of <= 8 (quick) / <= 10 (thorough) bytes"),
     run,
